@@ -1147,3 +1147,268 @@ func checkDumpKeepsSelection(w *core.World, r *core.Report, rule string) {
 	}
 	r.Floor(rule, "Dump methods of back ends", n, 2)
 }
+
+// checkFrameListGrowsByFreshMaps (C05 R9): a cache level begins empty. The list of level maps
+// (Cache.Cache) grows only by appending a map made for the purpose; every other store to the field
+// is a re-slice that cannot grow it (upper bound: a constant <= 1 or the field's own length minus a
+// constant) or the constructor's literal. Re-slicing upwards ("reuse the map left in the backing
+// array") brings a dropped level back with whatever it held.
+func checkFrameListGrowsByFreshMaps(w *core.World, r *core.Report, rule string) {
+	isSelf := func(v ssa.Value) bool {
+		for _, s := range core.Sources(v) {
+			if tn, f, ok := core.LoadedField(s); ok && tn == "cache.Cache" && f == "Cache" {
+				return true
+			}
+		}
+		return false
+	}
+	var shrinking func(v ssa.Value, d int) bool
+	shrinking = func(v ssa.Value, d int) bool {
+		v = core.Strip(v)
+		if d > 4 {
+			return false
+		}
+		if k, ok := core.ConstInt(v); ok {
+			return k <= 1
+		}
+		if c, ok := v.(*ssa.Call); ok && core.IsCallTo(c, "builtin.len") {
+			return isSelf(c.Call.Args[0])
+		}
+		if bo, ok := v.(*ssa.BinOp); ok && bo.Op == token.SUB {
+			if k, ok := core.ConstInt(bo.Y); ok && k >= 0 {
+				return shrinking(bo.X, d+1)
+			}
+		}
+		return false
+	}
+	freshMap := func(v ssa.Value) bool {
+		for _, s := range core.Sources(v) {
+			if _, ok := s.(*ssa.MakeMap); ok {
+				continue
+			}
+			if c, ok := s.(*ssa.Call); ok {
+				if g := core.StaticCallee(c); g != nil && w.InLib(g) && len(g.Blocks) > 0 {
+					all := true
+					for _, in := range allInstrs(g) {
+						if ret, ok := in.(*ssa.Return); ok && len(ret.Results) == 1 {
+							for _, rs := range core.Sources(ret.Results[0]) {
+								if _, ok := rs.(*ssa.MakeMap); !ok {
+									all = false
+								}
+							}
+						}
+					}
+					if all {
+						continue
+					}
+				}
+			}
+			return false
+		}
+		return true
+	}
+	n, bad := 0, ""
+	var badPos token.Pos
+	for _, fn := range w.LibFuncs {
+		for _, in := range allInstrs(fn) {
+			st, ok := in.(*ssa.Store)
+			if !ok {
+				continue
+			}
+			tn, f, ok := core.FieldOfAddr(st.Addr)
+			if !ok || tn != "cache.Cache" || f != "Cache" {
+				continue
+			}
+			n++
+			r.Touch(core.QName(fn))
+			for _, src := range core.Sources(st.Val) {
+				switch t := src.(type) {
+				case *ssa.Call:
+					if core.IsCallTo(t, "builtin.append") && isSelf(t.Call.Args[0]) {
+						// every appended element is a fresh map
+						okEl := len(t.Call.Args) == 2
+						if okEl {
+							els := variadicElements(t.Call.Args[1])
+							if len(els) == 0 {
+								okEl = false
+							}
+							for _, e := range els {
+								if !freshMap(e) {
+									okEl = false
+								}
+							}
+						}
+						if !okEl {
+							bad = fmt.Sprintf("%s appends something other than a freshly made map at %s", core.QName(fn), w.Pos(st.Pos()))
+							badPos = st.Pos()
+						}
+						continue
+					}
+					bad = fmt.Sprintf("%s sets the level list from %s at %s", core.QName(fn), valueDesc(src), w.Pos(st.Pos()))
+					badPos = st.Pos()
+				case *ssa.UnOp:
+					// a re-slice of the field itself: Sources walks through the Slice to the load
+					if sl, ok := core.Strip(st.Val).(*ssa.Slice); ok && isSelf(sl.X) {
+						if sl.High == nil || !shrinking(sl.High, 0) {
+							bad = fmt.Sprintf("%s re-slices the level list with an upper bound that may exceed its length at %s", core.QName(fn), w.Pos(st.Pos()))
+							badPos = st.Pos()
+						}
+						continue
+					}
+					bad = fmt.Sprintf("%s sets the level list from another value at %s", core.QName(fn), w.Pos(st.Pos()))
+					badPos = st.Pos()
+				case *ssa.Alloc, *ssa.MakeSlice, *ssa.Const:
+					// constructor literal / make / nil
+				default:
+					bad = fmt.Sprintf("%s sets the level list from %s at %s", core.QName(fn), valueDesc(src), w.Pos(st.Pos()))
+					badPos = st.Pos()
+				}
+			}
+		}
+	}
+	r.Check(bad == "" && n >= 2, rule, "cache: the level list grows only by appending a freshly made map", badPos, fmt.Sprintf("%d stores to Cache.Cache: append of a fresh map, non-growing re-slice, or constructor", n),
+		"a cache level can begin with content: a map that is not fresh is appended, or the list is re-sliced upwards over a map left in its backing array - the symbols of a dropped level are visible again after the next descent: "+bad)
+}
+
+// variadicElements returns the values stored into the array behind a variadic argument slice
+// (`append(x, a, b)` passes `slice t[:]` of a fresh [2]T holding a and b).
+func variadicElements(v ssa.Value) []ssa.Value {
+	sl, ok := v.(*ssa.Slice)
+	if !ok {
+		return nil
+	}
+	al, ok := sl.X.(*ssa.Alloc)
+	if !ok {
+		return nil
+	}
+	var out []ssa.Value
+	if refs := al.Referrers(); refs != nil {
+		for _, rr := range *refs {
+			ia, ok := rr.(*ssa.IndexAddr)
+			if !ok {
+				continue
+			}
+			if ir := ia.Referrers(); ir != nil {
+				for _, s := range *ir {
+					if st, ok := s.(*ssa.Store); ok && st.Addr == ssa.Value(ia) {
+						out = append(out, st.Val)
+					}
+				}
+			}
+		}
+	}
+	return out
+}
+
+// checkConfigLanguageBeforeLoad (C07 R8): the configured default language initialises a state
+// before the stored session is loaded over it; it is never applied after the load. Applied after,
+// a per-request engine re-applies it on every request to a session that deliberately has no
+// language, while a long-lived engine (which loads once) keeps the session's choice.
+func checkConfigLanguageBeforeLoad(w *core.World, r *core.Report, rule string) {
+	applies := map[*ssa.Function]bool{}
+	loads := map[*ssa.Function]bool{}
+	for _, fn := range w.FuncsIn("engine") {
+		for _, c := range core.CallsTo(fn, "state.(*State).SetLanguage") {
+			args := core.CallArgs(c)
+			for _, s := range core.Sources(args[len(args)-1]) {
+				if tn, f, ok := core.LoadedField(s); ok && f == "Language" && strings.HasSuffix(tn, "Config") {
+					applies[fn] = true
+				}
+			}
+		}
+		if len(core.CallsTo(fn, "persist.(*Persister).Load")) > 0 {
+			loads[fn] = true
+		}
+	}
+	if len(applies) == 0 || len(loads) == 0 {
+		r.Undecided(rule, "engine: configured language / session load", token.NoPos, fmt.Sprintf("found %d function(s) applying Config.Language and %d loading the session", len(applies), len(loads)))
+		return
+	}
+	closure := func(set map[*ssa.Function]bool) map[*ssa.Function]bool {
+		out := map[*ssa.Function]bool{}
+		for f := range set {
+			out[f] = true
+		}
+		for round := 0; round < 3; round++ {
+			for _, fn := range w.FuncsIn("engine") {
+				if out[fn] {
+					continue
+				}
+				for _, c := range core.Calls(fn) {
+					if g := core.StaticCallee(c); g != nil && out[g] {
+						out[fn] = true
+					}
+				}
+			}
+		}
+		return out
+	}
+	aAll, lAll := closure(applies), closure(loads)
+	bad := ""
+	var badPos token.Pos
+	n := 0
+	for _, fn := range w.FuncsIn("engine") {
+		var as, ls []ssa.Instruction
+		for _, c := range core.Calls(fn) {
+			g := core.StaticCallee(c)
+			if g == nil {
+				continue
+			}
+			if aAll[g] {
+				as = append(as, c.(ssa.Instruction))
+			}
+			if lAll[g] {
+				ls = append(ls, c.(ssa.Instruction))
+			}
+		}
+		if applies[fn] {
+			for _, c := range core.CallsTo(fn, "state.(*State).SetLanguage") {
+				as = append(as, c.(ssa.Instruction))
+			}
+		}
+		if loads[fn] {
+			for _, c := range core.CallsTo(fn, "persist.(*Persister).Load") {
+				ls = append(ls, c.(ssa.Instruction))
+			}
+		}
+		for _, l := range ls {
+			for _, a := range as {
+				if a == l {
+					continue
+				}
+				n++
+				if hit, _ := core.Reach(core.After(l), core.IsInstr(a), nil); hit != nil {
+					bad = fmt.Sprintf("in %s the configured language is applied at %s, after the session was loaded at %s", core.QName(fn), w.Pos(a.Pos()), w.Pos(l.Pos()))
+					badPos = a.Pos()
+				}
+			}
+		}
+	}
+	r.Check(bad == "" && n > 0, rule, "engine: the configured language is applied before the session is loaded, never after", badPos, fmt.Sprintf("%d (load, apply) pair(s), apply never reachable after load", n),
+		"the configured default language is written into a state that was just loaded from the store: a per-request engine does that on every request, a long-lived engine only once, so a session that cleared its language on purpose is served differently by the two: "+bad)
+}
+
+// checkCodecNoUnsafe (C14 R11): the strings the decoder hands out are copies of the instruction
+// bytes (string([]byte) conversions), so they keep the decoded value when the caller reuses its
+// buffer. The structural condition checked: the codec packages do not import package unsafe, the
+// only way to build a string that is a view of a byte slice.
+func checkCodecNoUnsafe(w *core.World, r *core.Report, rule string) {
+	n := 0
+	for _, pk := range []string{"vm", "asm"} {
+		p := w.Pkgs[pk]
+		if p == nil || p.Types == nil {
+			r.Undecided(rule, "package "+pk, token.NoPos, "not loaded")
+			continue
+		}
+		n++
+		uses := false
+		for _, imp := range p.Types.Imports() {
+			if imp.Path() == "unsafe" {
+				uses = true
+			}
+		}
+		r.Check(!uses, rule, "package "+pk+": decoded values are copies (no package unsafe)", token.NoPos, "does not import unsafe",
+			"the codec package imports unsafe: a decoded symbol or selector built with unsafe.String is a view of the caller's bytecode buffer and changes when that buffer is reused - decode(encode(x)) is x only until then")
+	}
+	_ = n
+}
